@@ -242,9 +242,6 @@ class StateTriggerDecorator(TriggerDecorator, ExpressionDecorator, AutoKwargsDec
             self.last_new_vars = State.notify_var_get(self.state_trig_ident, {})
             trig_ok = await self._is_trig_ok()
 
-            if self.in_wait_until_function and trig_ok and self.state_check_now is True:
-                self.state_hold_false = None
-
             if self.state_check_now and self.has_expression():
                 await self._check_new_state(trig_ok, startup=True)
             else:
